@@ -255,3 +255,16 @@ fn c07_is_same_contract() {
     let a0: [u8; 0] = [];
     assert!(is_same(a0).is_none());
 }
+
+/// the strobe count of a repeated all-same-word pixel must not overflow (count * N >= 2^32); concrete input
+#[kani::proof]
+#[kani::unwind(2)]
+fn c07_repeat_count_no_overflow() {
+    let p = Port::new(0);
+    let bus = bus8(&p);
+    let mut pi = ParallelInterface::new(bus, DcPin(&p), WrPin(&p));
+    // fail the 3rd low-level operation (first bare strobe) so that the call returns right after the product is computed
+    p.clock.fail_at.set(10);
+    let r = pi.send_repeated_pixel([0x55u8, 0x55u8], 0x8000_0000);
+    assert!(r.is_err(), "C07: expected the injected strobe failure");
+}
